@@ -29,7 +29,7 @@ func (r *Rsoa) MarshalText() (text []byte, err error) {
 	w.Write(NSEP)
 	putdomtext(w, r.adm)
 	w.Write(NSEP)
-	if r.ser != 0 {
+	if r.ser != 0 || r.sok {
 		fmt.Fprintf(w, "%d", r.ser)
 	}
 	w.Write(NSEP)
